@@ -116,7 +116,6 @@ func propC11(w *World, r *Report) {
 		return
 	}
 	se := newTermEnv(w)
-	hs := storesInto(w, se, start, "github.com/TheCacophonyProject/go-cptv", "Header")
 	yamlF := -1
 	for i := 0; i < st.NumFields(); i++ {
 		if ci.Stores[i] != nil && strings.Contains(ci.Stores[i].String(), "yaml.v2.Marshal(main.Config.Motion") && i != hdrF {
@@ -124,50 +123,86 @@ func propC11(w *World, r *Report) {
 		}
 	}
 	recv := "@recv:main.CPTVFileRecorder"
-	okMC := false
-	for _, t := range hs["MotionConfig"] {
-		if yamlF >= 0 && t == `fmt.Sprintf("%striggeredthresh: %d\n", list(main.CPTVFileRecorder.`+st.Field(yamlF).Name()+recv+", "+se.termOf(start.Params[2]).String()+"))" {
-			okMC = true
-		}
-	}
-	r.Check(okMC && len(hs["MotionConfig"]) == 1, "H1", "header.MotionConfig at start = motion YAML + 'triggeredthresh: <threshold argument>'", w.Pos(start.Pos()), strings.Join(hs["MotionConfig"], " | "))
-	okBG := len(hs["BackgroundFrame"]) >= 1 && hs["BackgroundFrame"][0] == se.termOf(start.Params[1]).String()
-	r.Check(okBG, "H1", "header.BackgroundFrame at start = the background argument", w.Pos(start.Pos()), strings.Join(hs["BackgroundFrame"], " | "))
-	var whCall, nfCall *ssa.Call
+	// path form (helpers extracted from StartRecording are unfolded): on every successful path the header receives the
+	// motion YAML + threshold line and the background argument, then the recorder's header is written
+	var nfCall *ssa.Call
 	for _, b := range start.Blocks {
 		for _, in := range b.Instrs {
-			if c, ok := in.(*ssa.Call); ok {
-				switch calleeName(c) {
-				case "cptv.Writer.WriteHeader":
-					whCall = c
-				case "cptv.NewFileWriter":
-					nfCall = c
-				}
+			if c, ok := in.(*ssa.Call); ok && calleeName(c) == "cptv.NewFileWriter" {
+				nfCall = c
 			}
 		}
 	}
-	if whCall != nil {
-		arg := se.termOf(whCall.Call.Args[1]).String()
-		r.Check(arg == "main.CPTVFileRecorder."+st.Field(hdrF).Name()+recv, "H1", "the header written is the recorder's header", w.InstrPos(whCall), arg)
-		// both header updates precede the write
-		okOrd := true
-		for _, b := range start.Blocks {
-			for _, in := range b.Instrs {
-				if s, ok := in.(*ssa.Store); ok {
-					if fa, ok := s.Addr.(*ssa.FieldAddr); ok && typeIs(fa.X.Type(), "github.com/TheCacophonyProject/go-cptv", "Header") {
-						if c, isC := s.Val.(*ssa.Const); isC && c.Value == nil {
-							continue // reset after the write
-						}
-						if !(b == whCall.Block() && instrIndex(s) < instrIndex(whCall) || b != whCall.Block() && b.Dominates(whCall.Block())) {
-							okOrd = false
+	{
+		paths, complete := enumPathsInl(se, start, 256, sameReceiverHelperOf(start))
+		wantMC := ""
+		if yamlF >= 0 {
+			wantMC = `fmt.Sprintf("%striggeredthresh: %d\n", list(main.CPTVFileRecorder.` + st.Field(yamlF).Name() + recv + ", " + se.termOf(start.Params[2]).String() + "))"
+		}
+		wantBG := se.termOf(start.Params[1]).String()
+		wantHdr := "main.CPTVFileRecorder." + st.Field(hdrF).Name() + recv
+		nOK := 0
+		okMC, okBG, okWH, okArg, okOrd := true, true, true, true, true
+		var gotMC, gotBG, gotArg string
+		for _, p := range paths {
+			if p.Term(se, p.Ret.Results[0]).String() != "nil" {
+				continue
+			}
+			nOK++
+			var mc, bg []string
+			lastStore, wh := -1, -1
+			for idx, in := range p.Instrs {
+				switch x := in.(type) {
+				case *ssa.Store:
+					fa, ok := x.Addr.(*ssa.FieldAddr)
+					if !ok || !typeIs(fa.X.Type(), "github.com/TheCacophonyProject/go-cptv", "Header") {
+						continue
+					}
+					if c, isC := x.Val.(*ssa.Const); isC && c.Value == nil {
+						continue // reset after the write
+					}
+					name := structOf(fa.X.Type()).Field(fa.Field).Name()
+					t := p.Term(se, x.Val).String()
+					switch name {
+					case "MotionConfig":
+						mc = append(mc, t)
+						lastStore = idx
+					case "BackgroundFrame":
+						bg = append(bg, t)
+						lastStore = idx
+					}
+				case *ssa.Call:
+					if calleeName(x) == "cptv.Writer.WriteHeader" {
+						wh = idx
+						gotArg = p.Term(se, x.Call.Args[1]).String()
+						if gotArg != wantHdr {
+							okArg = false
 						}
 					}
 				}
 			}
+			gotMC, gotBG = strings.Join(mc, " | "), strings.Join(bg, " | ")
+			if !(len(mc) == 1 && wantMC != "" && mc[0] == wantMC) {
+				okMC = false
+			}
+			if !(len(bg) >= 1 && bg[0] == wantBG) {
+				okBG = false
+			}
+			if wh < 0 {
+				okWH = false
+			} else if lastStore > wh {
+				okOrd = false
+			}
 		}
-		r.Check(okOrd, "H1", "threshold and background are put into the header before it is written", w.InstrPos(whCall), "")
-	} else {
-		r.Fail("H1", "the header is written at start", w.Pos(start.Pos()), "no WriteHeader call", "")
+		r.Check(complete && nOK >= 1, "H1", "StartRecording has successful paths (loop-free)", w.Pos(start.Pos()), fmt.Sprintf("%d paths, %d successful", len(paths), nOK))
+		r.Check(okMC && nOK >= 1, "H1", "header.MotionConfig at start = motion YAML + 'triggeredthresh: <threshold argument>'", w.Pos(start.Pos()), gotMC)
+		r.Check(okBG && nOK >= 1, "H1", "header.BackgroundFrame at start = the background argument", w.Pos(start.Pos()), gotBG)
+		if okWH && nOK >= 1 {
+			r.Check(okArg, "H1", "the header written is the recorder's header", w.Pos(start.Pos()), gotArg)
+			r.Check(okOrd, "H1", "threshold and background are put into the header before it is written", w.Pos(start.Pos()), "")
+		} else {
+			r.Fail("H1", "the header is written at start", w.Pos(start.Pos()), "a successful path of StartRecording has no WriteHeader call", "")
+		}
 	}
 	if nfCall != nil {
 		arg := se.termOf(nfCall.Call.Args[1]).String()
